@@ -31,15 +31,9 @@ def oracle_moments(rng, d):
         t = rng.choice([0.0, 1.0, 0.5, 2.0])
         target = t * np.exp(d['alpha_np'] @ np.array(x))
         # set v (possibly through the affine image v = M @ vv with unit upper-triangular M)
-        if d['json']['v'] == 'var':
-            d['v'].value = target
-        else:
-            M = np.eye(m)
-            if m > 1:
-                M[0, 1] = 1.0
-            d['v'].value = np.linalg.solve(M, target)
+        d['v'].value = np.linalg.solve(d['vmat'], target - d['voff'])
         vval = np.asarray(Expression(con.v).value, dtype=float)
-        if not np.allclose(vval, target, rtol=1e-12, atol=1e-12):
+        if not np.allclose(vval, target, rtol=1e-9, atol=1e-9):
             return 'harness could not set v'
         xl = np.array(list(x) + list(w))
         for i, mu in con._lifted_mu_vars.items():
